@@ -44,6 +44,8 @@ def remove_unused_self_cls(source: str) -> str:
                 # A property is called with the instance, whether it uses it or not
                 continue
             first_arg_name = arguments[0].arg
+            if any(core.walk(funcdef, ast.Call(func=ast.Name(id="super"), args=[], keywords=[]))):
+                continue  # super() without arguments is super(__class__, <first argument>)
 
             first_arg_accesses = set()
             static_accesses = set()
